@@ -122,10 +122,146 @@ def listing(path, arch="amd64"):
     return p.stdout + p.stderr
 
 
-def routines(path):
+# ---------------------------------------------------------------- arm64
+
+A64_GPR = {"R%d" % i for i in range(31)}
+A64_JCC = {"BLT": "lt", "BGT": "gt", "BEQ": "eq", "BNE": "ne", "BGE": "ge", "BLE": "le", "BLO": "lt", "BHI": "gt",
+           "BHS": "ge", "BLS": "le"}
+A64_VEC = {"VEOR", "VSRI", "VSHL", "VSUB", "VTBL", "VDUP", "VREV32", "VMOV", "VMOVI", "VEXT", "VPMULL", "VPMULL2",
+           "VRBIT", "VADD", "VAND", "VORR", "VREV64", "VUSHR", "VZIP1", "VZIP2"}
+LANE_BYTES = {"B": 1, "H": 2, "S": 4, "D": 8, "Q": 16}
+
+
+def a64_operand(t):
+    t = t.strip()
+    m = re.match(r"^\$(-?(?:0x[0-9a-fA-F]+|\d+))$", t)
+    if m:
+        return dict(k="i", r="", v=int(m.group(1), 0))
+    m = re.match(r"^\$(\w+)<>(?:\+(\d+))?\(SB\)$", t)
+    if m:
+        return dict(k="sb", r=m.group(1), v=int(m.group(2) or 0))
+    m = re.match(r"^(\w+)(?:\+(\d+))?\(FP\)$", t)
+    if m:
+        return dict(k="fp", r=m.group(1), v=int(m.group(2) or 0))      # no return-address slot on arm64
+    m = re.match(r"^(-?\d+)?\((R\d+)\)$", t)
+    if m:
+        return dict(k="m", r=m.group(2), v=int(m.group(1) or 0))
+    m = re.match(r"^V(\d+)\.([BHSDQ])(\d+)$", t)
+    if m:
+        return dict(k="v", r="V" + m.group(1), v=LANE_BYTES[m.group(2)] * int(m.group(3)))
+    m = re.match(r"^V(\d+)\.([BHSD])\[(\d+)\]$", t)
+    if m:
+        return dict(k="v", r="V" + m.group(1), v=LANE_BYTES[m.group(2)])   # one lane
+    if t in A64_GPR:
+        return dict(k="r", r=t, v=0)
+    raise core.Infra("asm(arm64): unsupported operand form %r" % t)
+
+
+def a64_split(s):
+    """split operands at top-level commas (register lists are bracketed)"""
+    out, depth, cur = [], 0, ""
+    for ch in s or "":
+        if ch == "[":
+            depth += 1
+        if ch == "]":
+            depth -= 1
+        if ch == "," and depth == 0:
+            out.append(cur.strip())
+            cur = ""
+        else:
+            cur += ch
+    if cur.strip():
+        out.append(cur.strip())
+    return out
+
+
+def a64_reglist(t):
+    t = t.strip()
+    if t.startswith("["):
+        return [a64_operand(x) for x in t[1:-1].split(",")]
+    return [a64_operand(t)]
+
+
+def rec(cl="", fn="", a=NONE, b=NONE, c=NONE, w=0, t=0):
+    return dict(cl=cl, fn=fn, a=a, b=b, c=c, w=w, t=t)
+
+
+def classify_arm64(op, rest, where):
+    """-> list of instruction records (multi-register and post-increment forms expand)"""
+    ops = a64_split(rest)
+    if op in ("FUNCDATA", "TEXT", "PCDATA", "NOP", "NOOP"):
+        return [rec("nop")]
+    if op == "RET":
+        return [rec("ret")]
+    if op in ("JMP", "B"):
+        return [rec("jmp", t=int(ops[0]))]
+    if op in A64_JCC:
+        return [rec("jcc", fn=A64_JCC[op], t=int(ops[0]))]
+    if op == "CMP":       # CMP x, Rn sets flags from Rn - x
+        return [rec("cmp", a=a64_operand(ops[1]), b=a64_operand(ops[0]), w=8)]
+    if op == "MOVD":
+        a, b = a64_operand(ops[0]), a64_operand(ops[1])
+        if a["k"] == "sb":
+            return [rec("lea", a=a, b=b, w=8)]
+        if a["k"] == "m" or b["k"] == "m":
+            raise core.Infra("asm(arm64): scalar load/store %s not in the table (%s)" % (rest, where))
+        return [rec("mov", a=a, b=b, w=8)]
+    if op in ("ADD", "SUB"):
+        o = [a64_operand(x) for x in ops]
+        fn = "add" if op == "ADD" else "sub"
+        if len(o) == 2:
+            return [rec("alu", fn=fn, a=o[0], b=o[1], w=8)]
+        out = []
+        if o[1]["r"] != o[2]["r"]:
+            out.append(rec("mov", a=o[1], b=o[2], w=8))
+        out.append(rec("alu", fn=fn, a=o[0], b=o[2], w=8))
+        return out
+    if op == "WORD":      # hand-encoded TBL/TBX  0 Q 001110 000 Rm 0 len op 00 Rn Rd
+        imm = a64_operand(ops[0])["v"]
+        if imm & 0xBFE08C00 != 0x0E000000:
+            raise core.Infra("asm(arm64): WORD %#x is not a TBL/TBX encoding (%s)" % (imm, where))
+        rd, rm = imm & 31, (imm >> 16) & 31
+        d = dict(k="v", r="V%d" % rd, v=16)
+        return [rec("vec", fn="TBX", a=dict(k="v", r="V%d" % rm, v=16), c=d, b=d, w=16)]
+    base = op.split(".")[0]
+    post = op.endswith(".P")
+    if base in ("VLD1", "VLD2", "VLD3", "VLD4", "VST1", "VST2", "VST3", "VST4"):
+        load = base.startswith("VLD")
+        mem = a64_operand(ops[0] if load else ops[1])
+        regs = a64_reglist(ops[1] if load else ops[0])
+        if mem["k"] != "m":
+            raise core.Infra("asm(arm64): %s without a memory operand (%s)" % (op, where))
+        inc = mem["v"] if post else 0
+        off = 0 if post else mem["v"]
+        out = []
+        for r in regs:
+            m = dict(k="m", r=mem["r"], v=off)
+            out.append(rec("vec", fn=base, a=m, b=r, w=r["v"]) if load else rec("vec", fn=base, a=r, b=m, w=r["v"]))
+            off += r["v"]
+        if post:
+            if inc != off:
+                raise core.Infra("asm(arm64): post-increment %d differs from the transfer size %d (%s)" % (inc, off, where))
+            out.append(rec("alu", fn="add", a=dict(k="i", r="", v=inc), b=dict(k="r", r=mem["r"], v=0), w=8))
+        return out
+    if base in A64_VEC:
+        o = []
+        for x in ops:
+            o += a64_reglist(x)
+        srcs, dst = o[:-1], o[-1]
+        data = [x for x in srcs if x["k"] != "i"]
+        if not data:
+            data = [x for x in srcs if x["k"] == "i"][:1]      # VMOVI: the immediate is the (public) source
+        if len(data) > 2:     # VTBL: table registers hold public data; the index register decides the taint
+            data = [data[0], data[-1]]
+        return [rec("vec", fn=base, a=data[0] if data else NONE, c=data[1] if len(data) > 1 else NONE, b=dst,
+                    w=max([x["v"] for x in data + [dst] if x["k"] == "v"] or [0]))]
+    raise core.Infra("asm(arm64): opcode %s not in the semantics table (%s)" % (op, where))
+
+
+def routines(path, arch="amd64"):
     """symbol -> list of instruction dicts (with pc, line, op text), branch targets as 1-based indices"""
     out, cur, name = {}, None, None
-    for line in listing(path).splitlines():
+    for line in listing(path, arch).splitlines():
         m = TEXT.match(line)
         if m:
             name = m.group(1).split(".")[-1]
@@ -137,11 +273,18 @@ def routines(path):
             continue
         pc, src, lno, op, rest = int(m.group(2)), m.group(3), int(m.group(4)), m.group(5), m.group(6)
         where = "%s:%d %s %s" % (src, lno, op, rest or "")
-        ins = classify(op, split_ops(rest), where)
-        ins.update(pc=pc, line=lno, txt=(op + " " + (rest or "")).strip(), src=src)
-        cur.append(ins)
+        if arch == "arm64":
+            recs = classify_arm64(op, rest, where)
+        else:
+            recs = [classify(op, split_ops(rest), where)]
+        for i, ins in enumerate(recs):
+            ins.update(pc=pc, first=(i == 0), line=lno, txt=(op + " " + (rest or "")).strip(), src=src)
+            cur.append(ins)
     for name, prog in out.items():
-        idx = {ins["pc"]: i + 1 for i, ins in enumerate(prog)}
+        idx = {}
+        for i, ins in enumerate(prog):
+            if ins["first"]:
+                idx.setdefault(ins["pc"], i + 1)
         for ins in prog:
             if ins["cl"] in ("jmp", "jcc"):
                 if ins["t"] not in idx:
